@@ -1083,6 +1083,16 @@ pub fn cases(tier: Tier) -> Vec<Case> {
                 add(&format!("cstring:{ty}"), ty, "", format!("\"{src}\""), Val::Str(want), feat);
             }
         }
+        // character strings that consist of tstring characters only (digits and + - : . , / C D H M R P S T W Y Z with
+        // at least one of each kind): lexically they are also time values
+        for (ty, _) in &types {
+            if *ty == "NumericString" {
+                continue;
+            }
+            for v in ["1.0", "12:30", "2024-01-01", "MD5", "P1Y", "1,5", "+1", "T0", "Z9", "990102030405Z"] {
+                add(&format!("cstring:{ty}"), ty, "", format!("\"{v}\""), Val::Str(v.to_string()), "tstring-lookalike".into());
+            }
+        }
         // ---- bstrings
         for len in 0..=8usize {
             for v in 0u32..(1 << len) {
